@@ -1185,6 +1185,14 @@ class KmipEngine(object):
     def _is_valid_date(self, date_type, value, start, end):
         date_type = date_type.value.lower()
 
+        def printable(timestamp):
+            # Dates come from the request and may lie outside the range the
+            # platform can convert to a calendar date.
+            try:
+                return time.asctime(time.gmtime(timestamp))
+            except (OverflowError, OSError, ValueError):
+                return str(timestamp)
+
         if start is not None:
             if end is not None:
                 if value < start:
@@ -1192,9 +1200,9 @@ class KmipEngine(object):
                         "Failed match: object's {} ({}) is less than "
                         "the starting {} ({}).".format(
                             date_type,
-                            time.asctime(time.gmtime(value)),
+                            printable(value),
                             date_type,
-                            time.asctime(time.gmtime(start))
+                            printable(start)
                         )
                     )
                     return False
@@ -1203,9 +1211,9 @@ class KmipEngine(object):
                         "Failed match: object's {} ({}) is greater than "
                         "the ending {} ({}).".format(
                             date_type,
-                            time.asctime(time.gmtime(value)),
+                            printable(value),
                             date_type,
-                            time.asctime(time.gmtime(end))
+                            printable(end)
                         )
                     )
                     return False
@@ -1215,9 +1223,9 @@ class KmipEngine(object):
                         "Failed match: object's {} ({}) does not match "
                         "the specified {} ({}).".format(
                             date_type,
-                            time.asctime(time.gmtime(value)),
+                            printable(value),
                             date_type,
-                            time.asctime(time.gmtime(start))
+                            printable(start)
                         )
                     )
                     return False
